@@ -63,6 +63,7 @@ def obligations(ctx, tier):
                 out += core.g_row(K, PROP, fid, [(n, (lambda v=v: lambda W: {0: v})(), (lambda A=A: lambda W, env: ("val", W.wrap(A, int(env[0]))))()) for n, v in vals])
             out.append(core.f_row(K, PROP, tr(A, "cast::CastFrom", ["char"], "cast_from"),
                                   call(tr(A, "cast::CastFrom", ["u32"], "cast_from"), cast(P(0), "char", "u32"))))
+        out += same_digit_cast_rows(K)
         # ---- P-: every CastFrom impl
         for fid, di in sorted(F.by_fid.items()):
             d = F.defs[di]
@@ -105,3 +106,40 @@ def ctx_features(cfg):
 def _prim(ty, v):
     from analysis.guards import _wrap_prim
     return _wrap_prim(ty, v)
+
+
+def same_digit_cast_rows(K):
+    """bnum -> bnum casts within one digit type at (source digits M, target digits N) pairs: zero / sign extension and
+    truncation are decided by the wrapper (M < N, sign -> fill digit); cast_up / cast_down are trusted by contract"""
+    F = K.F
+    out = []
+    FAM = [("BUint", "BInt"), ("BUintD32", "BIntD32"), ("BUintD16", "BIntD16"), ("BUintD8", "BIntD8")]
+    for U, I in FAM:
+        for Tn in (U, I):
+            for Sn in (U, I):
+                fid = "<%s<N> as cast::CastFrom<%s<M>>>::cast_from" % (Tn, Sn)
+                if F.lookup(fid) is None:
+                    out.append(core.missing(PROP, "G", K, fid))
+                    continue
+
+                def mk(kind, Sn=Sn, Tn=Tn):
+                    def env_fn(W):
+                        sw = W.bits(Sn, W.m)
+                        lo, hi = (-(1 << (sw - 1)), (1 << (sw - 1)) - 1) if Sn in SIGNED else (0, (1 << sw) - 1)
+                        v = {"zero": 0, "one": 1, "neg1": -1 if Sn in SIGNED else hi, "hi": hi, "lo": lo, "mid": 0x1234567 % (hi + 1),
+                             "top": 1 << (sw - 2), "negmid": -(0x7654321 % (hi + 1)) if Sn in SIGNED else hi - 5,
+                             "alt": int("a5" * (sw // 8), 16) & ((1 << sw) - 1)}[kind]
+                        v = min(max(v, lo), hi) if kind != "alt" else v
+                        return {0: W.wrap(Sn, v, W.m)}
+
+                    def exp_fn(W, env):
+                        return ("val", W.wrap(Tn, env[0].v))
+                    return (kind, env_fn, exp_fn)
+                reps = [mk(k) for k in ("zero", "one", "neg1", "hi", "lo", "mid", "top", "negmid", "alt")]
+                old = core.WORLDS_FOR
+                core.WORLDS_FOR = lambda f: [(2, 1), (2, 3), (3, 2), (1, 2), (3, 3), (2, 2), (4, 1), (1, 4)]
+                try:
+                    out += core.g_row(K, PROP, fid, reps)
+                finally:
+                    core.WORLDS_FOR = old
+    return out
